@@ -174,4 +174,35 @@ theorem formtran0_pha (mk : Masks) (tbl : List Row) (pa : M α) (gm : Option (M 
         exact ⟨i, hi, List.mem_of_getElem? hrow⟩
 
 end formtran0
+/-! ## non-vacuity: the residual with scalar points 5 (b), 6 (m), 7 (q) -/
+
+section examples
+open PyYetiVerif.Generated.UsetMask
+set_option linter.unusedSimpArgs false
+
+def exKey0 (i d : Nat) : Nat := i * 10 + d
+def exMasks0 : Masks := Masks.ofTable mask
+def exTbl0 : List Row := [(5, 0, 2097154), (6, 0, 1), (7, 0, 4194304)]
+
+/-- the three branches on the request `[(7, 0), (6, 0)]`: unit vectors of the g-set; rows of `phg`; rows recovered
+from `pha` (`u_m = 2 u_b + 3 u_q` through `gm = [[2, 3]]`) -/
+example : formtran0 (α := Int) exKey0 exMasks0 exTbl0 none none none (.rows [(7, 0), (6, 0)]) true
+      = .ok (⟨[[0, 0, 1], [0, 1, 0]], 3⟩, [(7, 0), (6, 0)]) ∧
+    formtran0 (α := Int) exKey0 exMasks0 exTbl0 (some ⟨[[1], [2], [3]], 1⟩) none none (.rows [(7, 0), (6, 0)]) false
+      = .ok (⟨[[3], [2]], 1⟩, [(7, 0), (6, 0)]) ∧
+    formtran0 (α := Int) exKey0 exMasks0 exTbl0 none (some ⟨[[1], [10]], 1⟩) (some ⟨[[2, 3]], 2⟩)
+      (.rows [(7, 0), (6, 0)]) false = .ok (⟨[[10], [32]], 1⟩, [(7, 0), (6, 0)]) ∧
+    mkdofpv exMasks0.p exTbl0 (.mask exMasks0.g) (.rows [(7, 0), (6, 0)]) true = .ok ([2, 1], [(7, 0), (6, 0)]) ∧
+    setPos exTbl0 exMasks0.p exMasks0.g = .ok [0, 1, 2] := by
+  simp [formtran0, mkdofpv, mksetpv, expanddof, expanddof2, expandRow, digits, digitsRev, mkdofpvKeys, argsort,
+    lookup, searchsortedLeft, key, List.mergeSort, List.zipIdx, List.MergeSort.Internal.splitInTwo,
+    exMasks0, Masks.ofTable, exTbl0, mask, v_p, v_g, v_n, v_f, v_a, v_q, v_r, v_b, v_c, v_o, v_s, v_m, v_e, v_l, v_t,
+    inSet, liftE, setPos, positions, selIn, takeIdx, matIntersect, lookupAll, iddofOf, dofRows, exKey0,
+    procMset, colsAt, anyCols, dot, rowComb, addRow, smulRow,
+    scatterRows, setCols, rowsAt, unitRow, zeroRow, reorder,
+    bind, Except.bind, pure, Except.pure, Except.map, List.mapM_cons, List.mapM_nil]
+  decide
+
+end examples
+
 end PyYetiVerif.C18
